@@ -23,6 +23,7 @@ import (
 	"github.com/hashicorp/memberlist"
 	"github.com/vx-labs/commitlog/stream"
 	"github.com/vx-labs/mqtt-protocol/packet"
+	"github.com/vx-labs/wasp/v4/rpc"
 	"github.com/vx-labs/wasp/v4/wasp"
 	"github.com/vx-labs/wasp/v4/wasp/ack"
 	"github.com/vx-labs/wasp/v4/wasp/audit"
@@ -58,6 +59,7 @@ type World struct {
 	MemLog    bool   // nodes use an in-memory message log (race-detector runs)
 	Quiet     bool   // seams do not record (stress runs): only what the driver emits itself
 	AuditDown bool   // the nodes' audit sink is unreachable: every RecordEvent fails (it is a side channel and must not matter)
+	RealRPC   bool   // nodes talk to each other through the project's rpc package (TLS, interceptors) instead of a bare gRPC connection
 	Gates     *Gates // scheduler gates at the replicated-state calls (only with build tag "gates")
 
 	cnt    map[string]int // hook counters
@@ -304,10 +306,21 @@ func (w *World) AddNodePrefilled(id int, pre *Prefill) (*Node, error) {
 	go n.Mgr.Run(n.ctx)
 	// inter-node RPC
 	n.lis = bufconn.Listen(1 << 20)
-	n.srv = grpc.NewServer()
+	bufDialer := grpc.WithContextDialer(func(context.Context, string) (net.Conn, error) { return n.lis.Dial() })
+	if w.RealRPC {
+		// the project's own RPC layer on both ends (server options and interceptors, client options and interceptors, TLS with
+		// the self-signed certificate the server generates), as cmd/wasp wires it - only the socket is an in-memory one
+		n.srv = rpc.Server(rpc.ServerConfig{})
+	} else {
+		n.srv = grpc.NewServer()
+	}
 	wasp.NewMQTTServer(n.State, n.Local, n.Log, n.Dist, nil).Serve(n.srv)
 	go n.srv.Serve(n.lis)
-	n.cc, err = grpc.DialContext(n.ctx, "bufnet", grpc.WithContextDialer(func(context.Context, string) (net.Conn, error) { return n.lis.Dial() }), grpc.WithInsecure())
+	if w.RealRPC {
+		n.cc, err = rpc.GRPCDialer(rpc.ClientConfig{InsecureSkipVerify: true})("bufnet", bufDialer)
+	} else {
+		n.cc, err = grpc.DialContext(n.ctx, "bufnet", bufDialer, grpc.WithInsecure())
+	}
 	if err != nil {
 		return nil, err
 	}
@@ -408,6 +421,8 @@ type logWrap struct {
 	mu       sync.Mutex
 	next     uint64
 	failNext int
+	slowNext int
+	slowFor  time.Duration
 	appended int
 	consumed int
 }
@@ -417,6 +432,11 @@ func (l *logWrap) Append(p *packet.Publish) error {
 	l.mu.Lock()
 	defer l.mu.Unlock()
 	var err error
+	if l.slowNext > 0 {
+		// a disk that answers late: the append succeeds, after a while (outside the recorder's critical section)
+		l.slowNext--
+		time.Sleep(l.slowFor)
+	}
 	mount, lv := l.n.W.SplitMounted(string(p.Topic))
 	// the append and its event are one critical section of the recorder: the log consumer runs on another goroutine and
 	// may hand the entry to the writer at once - whatever it records then (log.consume, srv.write) comes after this event
@@ -439,6 +459,13 @@ func (l *logWrap) Append(p *packet.Publish) error {
 	return err
 }
 func (l *logWrap) FailNext(k int) { l.mu.Lock(); l.failNext = k; l.mu.Unlock() }
+
+// SlowNext makes the next k appends take d longer (and still succeed).
+func (l *logWrap) SlowNext(k int, d time.Duration) {
+	l.mu.Lock()
+	l.slowNext, l.slowFor = k, d
+	l.mu.Unlock()
+}
 func (l *logWrap) Counts() (int, int) {
 	l.mu.Lock()
 	defer l.mu.Unlock()
